@@ -1077,6 +1077,16 @@ func condValuePhiInt(cond ssa.Value, assumes []Assume, phiVals map[*ssa.Phi]bool
 		v, known := condValuePhiInt(u.X, assumes, phiVals, phiInts)
 		return !v, known
 	}
+	// the scenario comes first: a condition the caller made an assumption about takes the assumed edge
+	// (constants a path happens to assign to a phi must not override the scenario being asked about)
+	if len(assumes) > 0 {
+		t := Term(cond)
+		for _, a := range assumes {
+			if regexpMustCompile(a.Re).MatchString(t) {
+				return a.Val, true
+			}
+		}
+	}
 	// comparison of a result of a transparent helper: decided from what this path returned
 	if bo, ok := cond.(*ssa.BinOp); ok && len(activePathRets) > 0 {
 		x, okx := substRet(bo.X)
@@ -1148,12 +1158,6 @@ func condValuePhiInt(cond ssa.Value, assumes []Assume, phiVals map[*ssa.Phi]bool
 			return v, true
 		}
 	}
-	t := Term(cond)
-	for _, a := range assumes {
-		if regexpMustCompile(a.Re).MatchString(t) {
-			return a.Val, true
-		}
-	}
 	return false, false
 }
 
@@ -1197,7 +1201,7 @@ func PrunedCanReach(fn *ssa.Function, from ssa.Instruction, assumes []Assume, ta
 			parts = append(parts, fmt.Sprintf("%s=%d", ph.Name(), v))
 		}
 		sort.Strings(parts)
-		return fmt.Sprintf("%d|%s", b.Index, strings.Join(parts, ","))
+		return fmt.Sprintf("%p/%d|%s", b.Parent(), b.Index, strings.Join(parts, ","))
 	}
 	for len(work) > 0 {
 		it := work[len(work)-1]
